@@ -54,6 +54,15 @@ def run (op : String) (t : List String) : String :=
   -- compressors / decompressors are functions of their input (`Compressor` in Client/Codecs.lean): what was decoded
   -- before on the same thread has no bearing on the result
   | "cseq", [_, _, h] => "ok " ++ hx (unhx h)
+  -- the composition used on the wire (`sendBatch` / `recvBatch`, compression lossless by hypothesis): c14_batch_composition_*
+  | "cmp", [codec, _, items] =>
+    let its : List Selium.Bytes := if items = "none" then [] else (items.splitOn ",").map unhx
+    let c := if codec = "string" then stringCodec else bytesCodec
+    match sendBatch c noCompression its with
+    | .ok w => (match recvBatch c noCompression w with
+      | .ok got => "ok " ++ ",".intercalate (got.map hx)
+      | .err e => "err-" ++ e | .panic _ => "PANIC")
+    | .err e => "err-" ++ e | .panic _ => "PANIC"
   | _, _ => "bad-op"
 
 end Driver.Codec
